@@ -359,8 +359,9 @@ func classifyDiff(a, b string) string {
 		switch {
 		case isNaNLit(ta[i]) && isCanonicalNaN(tb[i]) && sameSignLit(ta[i], tb[i]):
 			c = "nan-payload-canonicalised"
-		case strings.HasPrefix(ta[i], "0xM") && strings.HasPrefix(tb[i], "0xM") && len(ta[i]) == 35 && len(tb[i]) == 35 && ta[i][:19] == tb[i][:19]:
-			// same high double, another low double (the library holds a ppc_fp128 in one big.Float)
+		case strings.HasPrefix(ta[i], "0xM") && strings.HasPrefix(tb[i], "0xM") && len(ta[i]) == 35 && len(tb[i]) == 35 && ta[i][:19] == tb[i][:19] && !ppcCanonicalPair(ta[i]):
+			// a pair that is not canonical (or has a -0.0 low double): same high double,
+			// another low double (the library holds the sum of a ppc_fp128 pair)
 			c = "ppc_fp128-low-double-changed"
 		default:
 			return ""
